@@ -1,6 +1,6 @@
 (* C31  File selection and path matching follow the documented rules.
    Statements only; every proof is `exact <lemma>`. *)
-From CV Require Import Base.Bytes Base.Glob Path.Defs Path.MatchProofs Path.SpecProofs Path.ListProofs Path.IterProofs.
+From CV Require Import Base.Bytes Base.Glob Path.Defs Path.MatchProofs Path.SpecProofs Path.ListProofs Path.IterProofs Path.Termination.
 From Coq Require Import Permutation Sorted.
 Local Open Scope N_scope.
 
@@ -35,6 +35,28 @@ Theorem C31_pathmatch_partial fuel pattern path base isdir b :
   (b = true <-> pathmatch_spec pattern path base isdir).
 Proof. exact (pathmatch_fuel_spec fuel pattern path base isdir b). Qed.
 Print Assumptions C31_pathmatch_partial.
+
+(* Termination: run with loop_fuel (an explicit bound computed from |pattern|,
+   |path| and the number of '*'), the loop always answers, with the specification. *)
+Theorem C31_match_loop_total real s t :
+  exists b, match_loop (loop_fuel s t) real s t = Some b /\ b = rsearch real s t.
+Proof. exact (match_loop_total real s t). Qed.
+Print Assumptions C31_match_loop_total.
+
+(* PathMatch::match (the executable model uses loop_fuel) is total ... *)
+Theorem C31_pathmatch_model_total pattern path base isdir :
+  exists b, pathmatch_model pattern path base isdir = Some b.
+Proof. exact (pathmatch_model_total pattern path base isdir). Qed.
+Print Assumptions C31_pathmatch_model_total.
+
+(* ... and its answer is the documented rules *)
+Theorem C31_pathmatch_total pattern path base isdir :
+  fast_ok pattern base = true ->
+  reads_canon_b pattern path base = true ->
+  exists b, pathmatch_model pattern path base isdir = Some b /\
+            (b = true <-> pathmatch_spec pattern path base isdir).
+Proof. exact (pathmatch_total pattern path base isdir). Qed.
+Print Assumptions C31_pathmatch_total.
 
 (* The iterator reads a string without empty, "." or ".." components and
    without trailing separator (canonical_b, a syntactic check) back unchanged. *)
